@@ -48,7 +48,7 @@ def run_hip(text: str):
 
 def gen_input(rng: random.Random) -> dict:
     p = {'Reservoir Temperature': round(rng.uniform(90, 350), 3), 'Rejection Temperature': round(rng.uniform(10, 80), 3),
-         'Reservoir Porosity': round(rng.uniform(1, 40), 3), 'Reservoir Area': round(rng.uniform(1, 500), 3),
+         'Reservoir Porosity': round(rng.choice([rng.uniform(1, 40), rng.uniform(1, 40), rng.uniform(0.01, 1.0), rng.uniform(40, 100)]), 3), 'Reservoir Area': round(rng.uniform(1, 500), 3),
          'Reservoir Thickness': round(rng.uniform(0.05, 2), 4), 'Reservoir Life Cycle': rng.randint(5, 60),
          'Recoverable Fluid Factor': round(rng.uniform(0.1, 1), 3), 'Recoverable Heat from Rock': round(rng.uniform(0.2, 1), 3)}
     if rng.random() < 0.5:
